@@ -163,6 +163,7 @@ def run(tier):
         events.append({"run": i, "B": B, "n": len(h), "cls": [l["c"] for l in h], "seen": seen_rows, "pre": pre_rows})
     if tool_fail > len(jobs) // 20:
         raise core.ToolError(f"streaming observation failed to settle in {tool_fail} runs")
+    n_stream = len(jobs)
     # long input: lag and memory must not grow with input size
     n_long = 3000 if tier == "quick" else 20000
     h = long_diff(n_long)
@@ -187,6 +188,29 @@ def run(tier):
     log(f"[{PID}] output left unread: delta accepted {accepted} input bytes before it blocked")
     failed, r = tlc.validate_trace("Trace_Lag", events, heap="6g")
     log(f"[{PID}] {len(events)} streamed runs judged by TLC at every input line, {len(failed)} rejected")
+    # an observation counts only if it reproduces: the (first twelve) rejected runs are streamed and re-run once more, one
+    # at a time, and judged again (delta guesses its caller from neighbouring processes: a stub `git show` of another check
+    # nearby changes how one of the prefix runs renders)
+    redo = [f for f in failed if f["run"] < n_stream][:12]
+    if redo:
+        ev2 = []
+        for f in redo:
+            h, B, mode = jobs[f["run"]]
+            seen, out, code, err, ok, pres = one(jobs[f["run"]])
+            if not ok or code != 0:
+                continue
+            seen_rows = []
+            for k in range(1, len(h) + 1):
+                part = out[:seen[k]]
+                seen_rows.append(rows_flags(part[:part.rfind(b"\n") + 1], intern))
+            ev2.append({"run": f["run"], "B": B, "n": len(h), "cls": [l["c"] for l in h], "seen": seen_rows,
+                        "pre": [rows_flags(p_, intern) for p_ in pres]})
+        again, _ = tlc.validate_trace("Trace_Lag", ev2, heap="2g") if ev2 else ([], None)
+        still = {f["run"] for f in again}
+        dropped = [f for f in redo if f["run"] not in still]
+        for f in dropped:
+            log(f"UNCONFIRMED property={PID} (not reproduced when streamed again alone; dropped) run {f['run']}: {f['why']} after line {f['k']}")
+        failed = [f for f in failed if f not in dropped]
     for f in failed:
         h, B, mode = jobs[f["run"]]
         V.violation(f"{f['why']}:{B}:{mode}:{stream.shape(h)[:300]}",
